@@ -14,7 +14,7 @@ from .csrc import ExtractError
 
 # rules whose case body is translated into the IR and proved equal to the Op.step case in Peg/TieSkel.lean
 IR_RULES = ["RULE_IF", "RULE_IFNOT", "RULE_NOT", "RULE_DROP", "RULE_ONLY_TAGS", "RULE_SUB", "RULE_ACCUMULATE", "RULE_CAPTURE",
-            "RULE_POSITION", "RULE_CONSTANT", "RULE_GROUP", "RULE_NTH", "RULE_ERROR", "RULE_BETWEEN", "RULE_TO", "RULE_THRU", "RULE_TIL", "RULE_CHOICE", "RULE_SEQUENCE", "RULE_LENPREFIX", "RULE_SPLIT"]
+            "RULE_POSITION", "RULE_CONSTANT", "RULE_GROUP", "RULE_NTH", "RULE_ERROR", "RULE_BETWEEN", "RULE_TO", "RULE_THRU", "RULE_TIL", "RULE_CHOICE", "RULE_SEQUENCE", "RULE_LENPREFIX", "RULE_SPLIT", "RULE_REPLACE", "RULE_MATCHTIME"]
 
 
 class Unsupported(Exception):
@@ -106,7 +106,23 @@ class Parser:
             if len(parts) != 3:
                 raise Unsupported("for header")
             return ('for', parts[0], parts[1], parts[2], self.stmt())
-        if x in ("do", "switch"):
+        if x == "switch":
+            self.take()
+            c = self.parens()
+            if self.take() != "{":
+                raise Unsupported("switch body")
+            depth, body = 1, []
+            while True:
+                y = self.take()
+                if y == "{":
+                    depth += 1
+                elif y == "}":
+                    depth -= 1
+                    if depth == 0:
+                        break
+                body.append(y)
+            return ('switch', c, body)
+        if x == "do":
             raise Unsupported("loop / switch statement (%s)" % x)
         toks, depth = [], 0
         while True:
@@ -148,6 +164,19 @@ def parse_case(text):
 
 
 OPCODES = {}          # RULE_x -> number, set by extract() from the current janet.h
+
+# the value computation of RULE_REPLACE / RULE_MATCHTIME, recognised as ONE idiom (roles: $cap = the result, $const = the constant,
+# $cs = the saved capture state); its meaning is `VE.replaceOf` of Peg/Skel.lean (callGuard + Op.replaceValue)
+REPLACE_SWITCH = (
+    "janet_type ( $const ) { default : $cap = $const ; break ; case JANET_STRUCT : if ( s -> captures -> count ) { $cap = "
+    "janet_struct_get ( janet_unwrap_struct ( $const ) , s -> captures -> data [ s -> captures -> count - 1 ] ) ; } break ; case "
+    "JANET_TABLE : if ( s -> captures -> count ) { $cap = janet_table_get ( janet_unwrap_table ( $const ) , s -> captures -> data "
+    "[ s -> captures -> count - 1 ] ) ; } break ; case JANET_CFUNCTION : case JANET_FUNCTION : { int32_t used = "
+    "JANET_RECURSION_GUARD - s -> depth + 1 ; if ( janet_vm . stackn + used > JANET_RECURSION_GUARD ) janet_panic ( "
+    "\"C stack recursed too deeply\" ) ; janet_vm . stackn + = used ; if ( janet_checktype ( $const , JANET_CFUNCTION ) ) { $cap = "
+    "janet_unwrap_cfunction ( $const ) ( s -> captures -> count - $cs . cap , s -> captures -> data + $cs . cap ) ; } else { $cap = "
+    "janet_call ( janet_unwrap_function ( $const ) , s -> captures -> count - $cs . cap , s -> captures -> data + $cs . cap ) ; } "
+    "janet_vm . stackn - = used ; break ; } }")
 
 
 # ------------------------------------------------------------------------------------------------ IR extraction
@@ -219,6 +248,7 @@ class Extract:
         self.oldmode = None
         self.pending_rule = None      # `rule = s->bytecode + rule[k];` waiting for `goto tail`
         self.argsbase = {}            # `const uint32_t *args = rule + B`  -> B
+        self.valdef = {}              # Janet local -> the value expression of its definition
         self.numdef = {}              # numeric local -> how it was defined (for the lenprefix idiom)
         self.lencap = {}              # Janet local assigned s->captures->data[cs.cap] inside the lenprefix condition -> cs
         self.num = {}                 # int32_t locals -> index
@@ -233,7 +263,7 @@ class Extract:
         e.oldmode, e.pending_rule = self.oldmode, self.pending_rule
         e.num, e.clamped, e.posalias, e.lc = dict(self.num), set(self.clamped), dict(self.posalias), dict(self.lc)
         e.argsbase = dict(self.argsbase)
-        e.numdef, e.lencap = dict(self.numdef), dict(self.lencap)
+        e.numdef, e.lencap, e.valdef = dict(self.numdef), dict(self.lencap), dict(self.valdef)
         e.arr = {k: dict(v) for k, v in self.arr.items()}
         return e
 
@@ -398,6 +428,9 @@ class Extract:
             return ".curAcc" if positive else ('not', ".curAcc")
         if s == "s -> has_backref":
             return ".hasBackref"
+        m = re.fullmatch(r"janet_truthy \( (\w+) \)", s)
+        if m and m.group(1) in self.val:
+            return ".valTruthy %d" % self.val[m.group(1)]
         m = re.fullmatch(r"(\w+) > (\w+)", s)
         if m and m.group(1) in self.num and m.group(2) in self.word:
             return ".numGtWord %d %s" % (self.num[m.group(1)], self.we([m.group(2)]))
@@ -527,9 +560,10 @@ class Extract:
                     self.cs[name] = len(self.cs)
                 return [".capSave %d" % self.cs[name]]
             if ty == "Janet" and not star:
-                e = self.vexpr(rhs)
+                e = ".nil" if rs == "janet_wrap_nil ( )" else self.vexpr(rhs)
                 if name not in self.val:
                     self.val[name] = len(self.val)
+                self.valdef[name] = e
                 return [".valDef %d %s" % (self.val[name], e)]
             if (ty == "uint8_t" and star) or (ty is None and name in self.ptr):
                 if rs == "NULL":
@@ -626,6 +660,23 @@ def conv(stmts, ex, end=".fall", loops=None):
         if end != ".cont":
             raise Unsupported("continue outside a loop")
         return ".cont"
+    if k == 'switch':
+        toks = st[1] + ["{"] + st[2] + ["}"]
+        # roles: the constant = a Janet local defined as s->constants[rule[k]]; the result = the Janet local assigned in the body;
+        # the capture state = the CapState local mentioned as `X . cap`
+        consts = [n for n in ex.val if re.fullmatch(r"\(\.const \d+\)", ex.valdef.get(n, ""))]
+        css = sorted(set(toks[i] for i in range(len(toks) - 2) if toks[i] in ex.cs and toks[i + 1] == "." and toks[i + 2] == "cap"))
+        caps = sorted(set(toks[i] for i in range(len(toks) - 1) if toks[i] in ex.val and toks[i + 1] == "=" and toks[i] not in consts))
+        if len(consts) != 1 or len(css) != 1 or len(caps) != 1:
+            raise Unsupported("switch statement (roles not recognised)")
+        role = {consts[0]: "$const", css[0]: "$cs", caps[0]: "$cap"}
+        canon_ = " ".join(role.get(t, t) if not (i > 0 and toks[i - 1] in (".", "->")) else t for i, t in enumerate(toks))
+        if canon_ != REPLACE_SWITCH:
+            raise Unsupported("switch statement differs from the RULE_REPLACE value computation the IR knows: " +
+                              token_diff(REPLACE_SWITCH, canon_))
+        kk = int(re.fullmatch(r"\(\.const (\d+)\)", ex.valdef[consts[0]]).group(1))
+        tail = conv(rest, ex, end, loops)
+        return "(.seq (.valDef %d (.replaceOf %d %d)) %s)" % (ex.val[caps[0]], kk, ex.cs[css[0]], tail)
     if k == 'for':
         init, cnd, inc, fbody = st[1], st[2], st[3], st[4]
         pre = ex.simple(init)
